@@ -316,10 +316,18 @@ Proof.
   exact (loc_invalid_not_input inp x H).
 Qed.
 
+(* ... and on whatever vehicle: a multiple of 0 is 0 *)
+Lemma stop_duration_on_invalid (inp : input) (v p x : nat) :
+  wf_input inp -> loc_valid inp x = false -> stop_duration_on inp v p x = 0.
+Proof.
+  intros Hwf H. apply (stop_duration_on_not_input inp v p x Hwf).
+  exact (loc_invalid_not_input inp x H).
+Qed.
+
 (* the time spent at a stop is its duration after the stop in front of it *)
 Lemma cells_from_duration (inp : input) (v : nat) :
   forall (rest : list nat) (p : cell),
-    Forall (fun c => exists q, c_end c - c_start c = stop_duration_at inp q (c_stop c))
+    Forall (fun c => exists q, c_end c - c_start c = stop_duration_on inp v q (c_stop c))
            (cells_from inp v p rest).
 Proof.
   induction rest as [|x rest IH]; intros p; cbn [cells_from]; constructor; [|apply IH].
@@ -355,7 +363,7 @@ Proof.
   destruct (loc_valid inp (c_stop c)) eqn:El; [reflexivity|].
   pose proof (cells_from_duration inp v rest (first_cell inp v)) as Hd.
   rewrite Forall_forall in Hd. destruct (Hd c Hc) as (q & Eq).
-  rewrite Eq, (stop_duration_at_invalid inp q _ Hwf El). reflexivity.
+  rewrite Eq, (stop_duration_on_invalid inp v q _ Hwf El). reflexivity.
 Qed.
 
 Theorem C20_waiting_is_sum_of_waits_proof : forall inp s v,
@@ -419,7 +427,7 @@ Proof. vm_compute. repeat split. Qed.
    listed, yet the waiting total is still the sum of the waits *)
 Definition ex20_inp : input :=
   mkInput [] [mkIStop [] 10 [(3600, 7200)] None 100 [] None 0 0]
-          [mkIVehicle None [] 0 None None None None None [] 0 false false 0 0]
+          [mkIVehicle None [] 0 None None None None None [] 0 false false 0 0 1 1]
           [mkIUnit [0%nat] []]
           [[0; 60; 60]; [60; 0; 60]; [60; 60; 0]] [[0; 60; 60]; [60; 0; 60]; [60; 60; 0]]
           0 ex2_opts [].
@@ -430,7 +438,7 @@ Definition ex20_s1 : state := Eval vm_compute in fst (exec_move ex20_inp ex20_s0
 
 Example ex20_wf : wf_input ex20_inp.
 Proof.
-  split; [|split; [|split; [|exact (Forall_nil _)]]].
+  split; [|split; [|split; [|split; [exact (Forall_nil _)|mult_wf]]]].
   - vm_compute. constructor; [simpl; tauto|constructor].
   - intros x. vm_compute. lia.
   - intros u Hu. vm_compute in Hu. destruct Hu as [<-|[]]; discriminate.
